@@ -796,3 +796,24 @@ Theorem C02_rcx_full_renumbering : forall f : N -> N, (forall a b, f a = f b -> 
   get_rc_x K d m (relabel f (gmapn (map_amap fz) g)) = relabel f (gmapn (map_amap fz) (get_rc_x K d m g)).
 Proof. exact rcx_full_renumbering. Qed.
 Print Assumptions C02_rcx_full_renumbering.
+
+(** 45. Two facts about contexts, generic in the node and bond types: (a) inside the radius-k context every atom keeps its distance
+        (<= k) to the start atoms, so every atom of a context is reached from the centre by at most k bonds INSIDE the context — no
+        part of a context is cut off from its centre; (b) radii add up: the radius-(j+k) ball is the radius-k ball around the
+        radius-j ball. *)
+Theorem C02_ball_distances_preserved : forall (A B : Type) (g : lgraph A B), wf g -> forall S : list N,
+  (forall s, In s S -> In s (node_ids g)) -> forall (k j : nat) (n : N), (j <= k)%nat ->
+  (dist_le_g (ball_sub g S k) S j n <-> dist_le_g g S j n).
+Proof. exact (@ball_distances_preserved). Qed.
+Print Assumptions C02_ball_distances_preserved.
+
+Theorem C02_ball_connected_to_seeds : forall (A B : Type) (g : lgraph A B), wf g -> forall S : list N,
+  (forall s, In s S -> In s (node_ids g)) -> forall (k : nat) (n : N),
+  In n (node_ids (ball_sub g S k)) -> dist_le_g (ball_sub g S k) S k n.
+Proof. exact (@ball_connected_to_seeds). Qed.
+Print Assumptions C02_ball_connected_to_seeds.
+
+Theorem C02_ball_radii_add : forall (A B : Type) (g : lgraph A B) (S : list N) (j k : nat) (n : N),
+  dist_le_g g S (j + k) n <-> dist_le_g g (knn_g g S j) k n.
+Proof. exact (@ball_radii_add). Qed.
+Print Assumptions C02_ball_radii_add.
